@@ -40,6 +40,33 @@ CHECKS.update({
             "result, no deadlock or livelock (no runnable thread / watchdog), and the mutex-protected drivers print the same final state.",
             "Pre-emption is only placed before instructions that touch shared memory, do I/O or call foreign code; the next thread is chosen by "
             "the real scheduler; gettimeofday/usleep are interposed by the harness executable.", "DESIGN.md §4 C11"),
+    "C03": ("exploration", "bounded-exhaustive program enumeration checked against an independent definitional (CEK) interpreter",
+            "Every variable-capture skeleton (12 binder kinds x 11 roles incl. captured+mutated, mutated-only, shadowed, forward-referenced "
+            "internal define, rest parameters, escaping closures x depth <= 4 x position, and all role pairs for two variables of one frame) "
+            "and every derived-form expression up to a size bound (cond/=>/else, case, and/or/when/unless, do, named let, nested quasiquote "
+            "with splicing, apply, values/call-with-values, arity errors) is compiled and run by the real interpreter and evaluated by the "
+            "reference machine mc/models/refscheme.py; printed value, observation trace and error outcome must agree.",
+            "The oracle is my reading of R7RS encoded in refscheme.py; operand evaluation order and unspecified values are factored out.",
+            "DESIGN.md §4 C03"),
+    "C06": ("model_checking", "exhaustive enumeration of control scripts up to a node bound, each executed on the implementation and on a reference machine implementing the R7RS wind/handler/parameter model",
+            "All scripts with <= 4 nodes (quick; 5 thorough, plus one more node over a reduced alphabet) over dynamic-wind, parameterize "
+            "(with and without converter), with-exception-handler whose handler returns / escapes through a captured continuation / "
+            "re-raises, guard with and without a matching clause, capture and bounded invocation of two continuations (from inside, from "
+            "outside and generator-style re-entry after the extent was left), raise, raise-continuable and parameter reads. The recorded "
+            "event trace (before/after thunks, handler entries with the parameter value they see, values returned to raise-continuable, "
+            "values delivered to captured continuations) must equal the trace of the reference machine.",
+            "Oracle: refscheme.py (R7RS 6.10, 4.2.6, 6.11, reference guard of 7.3); continuation use inside before/after thunks and "
+            "cross-thread continuations are excluded.", "DESIGN.md §4 C06"),
+    "C10": ("model_checking", "explicit-state breadth-first exploration of alloc/link/clear/gc histories on the real allocator with a heap-walk invariant checker, plus lasso (cycle) detection for boundedness",
+            "harness/heapmc.c drives sexp_alloc/sexp_gc of a bare context: all histories to depth 4 (quick) / 5 (thorough) over 37 "
+            "operations (9 object shapes from one chunk to larger-than-heap into 3 root slots, link, clear, gc) from several initial heap "
+            "sizes, de-duplicated on the exact tiling of every heap segment plus the root/link graph. After every transition and every "
+            "collection: chunks tile each segment exactly, the free list is address-ordered, non-overlapping, 32-byte granular and fully "
+            "coalesced after a sweep, no mark bit survives, every slot of every live object designates the start of a live object, and after "
+            "gc the live bytes equal the boot constant plus the model's reachable bytes. Every final-frontier state is churned until its heap "
+            "state repeats (bounded for ever). The same checker runs at every collection of 10 workloads and the repository's own test files, "
+            "and churn programs with bounded live data must reach a heap-size fixpoint.",
+            "The checker shares the type table with the collector; states are identified by two 64-bit hashes of the key.", "DESIGN.md §4 C10"),
 })
 
 NOT_YET = {}
